@@ -18,4 +18,4 @@ open Neutrino.Store
 #print axioms C08_import_recover
 #print axioms C08_import_source_shape
 #print axioms importOps_contract
-#print axioms applyAll_importOps_take
+#print axioms applySeq_importOps_take
